@@ -82,7 +82,12 @@ def service_type_name(type_: str, *, strict: bool = True) -> str:  # pylint: dis
         # https://datatracker.ietf.org/doc/html/rfc6763#section-7.2
         raise BadTypeInNameException("Full name (%s) must be > 256 bytes" % type_)
 
-    if type_.endswith((_TCP_PROTOCOL_LOCAL_TRAILER, _NONTCP_PROTOCOL_LOCAL_TRAILER)):
+    # Names compare case-insensitively: a responder may spell the protocol
+    # and the domain in another letter case, the spelling is kept in the result
+    if type_[-len(_TCP_PROTOCOL_LOCAL_TRAILER) :].lower() in (
+        _TCP_PROTOCOL_LOCAL_TRAILER,
+        _NONTCP_PROTOCOL_LOCAL_TRAILER,
+    ):
         remaining = type_[: -len(_TCP_PROTOCOL_LOCAL_TRAILER)].split('.')
         trailer = type_[-len(_TCP_PROTOCOL_LOCAL_TRAILER) :]
         has_protocol = True
@@ -91,7 +96,7 @@ def service_type_name(type_: str, *, strict: bool = True) -> str:  # pylint: dis
             "Type '%s' must end with '%s' or '%s'"
             % (type_, _TCP_PROTOCOL_LOCAL_TRAILER, _NONTCP_PROTOCOL_LOCAL_TRAILER)
         )
-    elif type_.endswith(_LOCAL_TRAILER):
+    elif type_[-len(_LOCAL_TRAILER) :].lower() == _LOCAL_TRAILER:
         remaining = type_[: -len(_LOCAL_TRAILER)].split('.')
         trailer = type_[-len(_LOCAL_TRAILER) + 1 :]
         has_protocol = False
